@@ -1,13 +1,19 @@
-#!/bin/sh
-# usage: run.sh <repo dir> <out file>
+#!/bin/bash
+# usage: util_upstream_tests.sh <repo dir> <out file>
+# Runs each upstream in-package test of core/util on its own (with the pure-Go grocksdb stand-in and
+# the external util_test package blanked), writing "PASS name" / "FAIL name" lines: used to compare
+# pass sets before and after a fix: commit (core/util does not build in the baseline suite here).
 repo=$1; out=$2
+w=$(mktemp -d /tmp/ut.XXXXXX)
+cp $repo/go.mod $w/alt.mod; cp $repo/go.sum $w/alt.sum
+echo "replace github.com/linxGnu/grocksdb => /verif/stubs/grocksdb" >> $w/alt.mod
+echo "{\"Replace\": {\"$repo/core/util/merkle_patricia_trie_mocks_test.go\": \"\"}}" > $w/ov.json
+export GOFLAGS="-mod=mod -modfile=$w/alt.mod" GOPROXY=off GOSUMDB=off GOTOOLCHAIN=local
 cd $repo
-export GOFLAGS="-mod=mod -modfile=/tmp/ut/alt.mod" GOPROXY=off GOSUMDB=off GOTOOLCHAIN=local
-sed "s#/repo/#$repo/#g" /tmp/ut/ov.json > /tmp/ut/ov_$$.json
-go test -overlay=/tmp/ut/ov_$$.json -vet=off -c -o /tmp/ut/util_$$.test ./core/util/ || exit 1
+go test -overlay=$w/ov.json -vet=off -c -o $w/util.test ./core/util/ || { rm -rf $w; exit 1; }
 cd core/util
 : > $out
-for t in $(/tmp/ut/util_$$.test -test.list '.*'); do
-  if timeout 120 /tmp/ut/util_$$.test -test.run "^$t\$" -test.count=1 >/dev/null 2>&1; then echo "PASS $t" >> $out; else echo "FAIL $t" >> $out; fi
+for t in $($w/util.test -test.list '.*'); do
+  if timeout 120 $w/util.test -test.run "^$t\$" -test.count=1 >/dev/null 2>&1; then echo "PASS $t" >> $out; else echo "FAIL $t" >> $out; fi
 done
-rm -f /tmp/ut/util_$$.test /tmp/ut/ov_$$.json
+rm -rf $w
